@@ -108,6 +108,14 @@ func c04Config(seed uint64, c int) (*SendScenario, []c04Pos) {
 		ms.Enc = sim.Pick(r, []string{"quoted-printable", "base64", "8bit", "quoted-printable"})
 		batch = append(batch, ms)
 	}
+	// every now and then the content of one message cannot be produced (a failing body writer)
+	// while the connection is healthy: whatever the client does about it, the messages after it
+	// must find a session that is legal and in step
+	if r.Chance(1, 8) {
+		at := r.Intn(len(batch))
+		body := []byte(strings.Repeat("a line of a body that is never completed\r\n", 6))
+		batch[at].Parts[0] = PartSpec{Type: "text/plain", Content: ContentSpec{Data: body, Chunks: []int{13}, Fail: true, FailAt: len(body) / 2}}
+	}
 	// every now and then the batch holds a nil message, or a message without sender (both are
 	// refused locally and must not disturb the dialogue of the others)
 	if r.Chance(1, 8) {
